@@ -130,6 +130,7 @@ def run(pid, tier, seed, replay, t0):
     ok, log, bt = C.lean_build(chk.build_targets)
     l1_problems = []
     audit = {}
+    recheck = None
     if not ok:
         l1_problems.append("lake build failed: " + log[-600:])
     else:
@@ -140,8 +141,13 @@ def run(pid, tier, seed, replay, t0):
         bad = C.grep_forbidden()
         if bad:
             l1_problems.append("forbidden tokens in Lean sources: " + "; ".join(bad[:5]))
+        if tier == "thorough":
+            rc_ok, rc_mods, rc_msg = C.lean_recheck(pid, chk.imports)
+            recheck = {"tool": "leanchecker", "modules": rc_mods, "accepted": rc_ok}
+            if not rc_ok:
+                l1_problems.append("leanchecker rejected a module: " + rc_msg)
     discharged = sum(1 for t in chk.theorems if audit.get(t, {}).get("ok")) if not l1_problems or audit else 0
-    if any(p.startswith("forbidden") or p.startswith("lake build") for p in l1_problems):
+    if any(p.startswith("forbidden") or p.startswith("lake build") or p.startswith("leanchecker") for p in l1_problems):
         discharged = 0
 
     # drift detection (never fails a check; escalates the tier of generation)
@@ -332,6 +338,7 @@ def run(pid, tier, seed, replay, t0):
             generation_tier=gen_tier,
             partial=chk.partial,
             lean_build_s=round(bt, 2),
+            independent_recheck=recheck,
             lean_source_hash=C.lean_source_hash(),
         ),
     )
